@@ -90,6 +90,7 @@ func runMODES(e *Env) (*Summary, error) {
 				o := defaultOpts()
 				o.Json = false
 				o.OrderedBetween = true
+				o.ListFields = true
 				g := NewGen(r, o)
 				q := g.Select()
 				if r.Chance(1, 12) {
